@@ -27,3 +27,10 @@ for fs_, nm in [(0, 'true'), (1, 'false'), (2, '{}'), (3, '[]')]:
     OBS.append(Ob(['C11', 'C03', 'C09'], 'md_variant_filter_%d' % fs_, 'mpd_f', 'harness/mpd.c', 'h_md_variant_filter', defs=['UNIT_H="mpd_f.h"', 'NB=6', 'FSHAPE=%d' % fs_], unwind=9, cap=400, hunwind=20, fs='none', objbits=12,
         desc='MsgPack parseVariant under the filter %s vs the unfiltered run on the same bytes (non-container codes): identity for true; otherwise value stays null, same code and consumption, no allocation' % nm,
         bound='every non-container first byte x all continuations up to 6 bytes x every truncation length'))
+UNITS += [Unit('mpd_fcont', 'wrappers/mpd.cpp', defs=MPD, cuts={'CUT_MPV?': r'MsgPackDeserializerI7VReaderE12parseVariantINS1_14AllowAllFilterE', 'CUT_MPVF': r'MsgPackDeserializerI7VReaderE12parseVariantINS0_21DeserializationOption6FilterE',
+    'CUT_ADD_ELEMENT': r'9ArrayData10addElementEPNS1_15ResourceManagerE$', 'CUT_ADD_MEMBER': r'10ObjectData9addMemberIPNS1_10StringNodeEEEPNS1_11VariantDataET_PNS1_15ResourceManagerE$', 'CUT_RKEY': r'MsgPackDeserializerI7VReaderE7readKeyEv'})]
+for ob_, nm, shapes in [(1, 'object', (0, 1, 2, 3, 4, 5)), (0, 'array', (0, 1, 3, 4, 5, 6))]:
+    for fs_ in shapes:
+        OBS.append(Ob(['C11', 'C03', 'C15'], 'md_read_%s_filter_%d' % (nm, fs_), 'mpd_fcont', 'harness/mpd_cont.c', 'h_md_container_filter', defs=['UNIT_H="mpd_fcont.h"', 'OBJECT=%d' % ob_, 'FSHAPE=%d' % fs_], unwind=6, cap=400, hunwind=8, fs='none', objbits=12,
+            desc='MsgPack read%s under filter shape %d (true / {"k":true} / {"x":true} / {} / {"*":true} / [true] / []): container created iff admitted, null destination exactly for discarded entries, slots only for kept ones, limit-1, count honoured' % (nm.capitalize(), fs_),
+            bound='announced count 0..3, all limits, every child / key / allocation behaviour allowed by the contracts'))
